@@ -12,7 +12,7 @@ import (
 // layouts and overlapping union members all occur.
 type Field struct {
 	Name    string `json:"name"`
-	Kind    string `json:"kind"` // void bool int8..int64 uint8..uint64 float32 float64 enum text data struct list anyptr group
+	Kind    string `json:"kind"` // void bool int8..int64 uint8..uint64 float32 float64 enum text data struct list anyptr interface group
 	Off     int    `json:"off"`
 	Default uint64 `json:"default,omitempty"` // bit pattern of the default (data kinds)
 	DefText string `json:"def_text,omitempty"`
@@ -43,10 +43,17 @@ type Enum struct {
 	Values []string `json:"values"`
 }
 
+// Iface: an interface node without methods; fields of kind "interface" hold capabilities of that type.
+type Iface struct {
+	Name string `json:"name"`
+	ID   uint64 `json:"id"`
+}
+
 type Model struct {
 	FileID  uint64   `json:"file_id"`
 	Structs []Struct `json:"structs"`
 	Enums   []Enum   `json:"enums"`
+	Ifaces  []Iface  `json:"ifaces,omitempty"`
 }
 
 var dataBits = map[string]int{"void": 0, "bool": 1, "int8": 8, "uint8": 8, "int16": 16, "uint16": 16, "enum": 16, "int32": 32, "uint32": 32, "float32": 32, "int64": 64, "uint64": 64, "float64": 64}
@@ -54,7 +61,7 @@ var dataBits = map[string]int{"void": 0, "bool": 1, "int8": 8, "uint8": 8, "int1
 func IsData(kind string) bool { _, ok := dataBits[kind]; return ok }
 
 var dataKinds = []string{"void", "bool", "bool", "int8", "uint8", "int16", "uint16", "enum", "int32", "int32", "uint32", "float32", "int64", "uint64", "float64"}
-var ptrKinds = []string{"text", "text", "data", "struct", "struct", "list", "list", "anyptr"}
+var ptrKinds = []string{"text", "text", "data", "struct", "struct", "list", "list", "anyptr", "interface"}
 var elemKinds = []string{"void", "bool", "int8", "uint8", "int16", "uint16", "int32", "uint32", "int64", "uint64", "float32", "float64", "text", "data", "struct", "enum", "list"}
 
 type space struct {
@@ -206,6 +213,9 @@ func (g *gen) fields(si int, sp *space, depth int) {
 			left--
 		}
 	}
+	// in a third of the unions most members are pointers, half of them structs with or without a default: members
+	// share pointer slots, and what one member declares (a default, a type) must not show through another
+	ptrHeavy := members > 0 && rapid.IntRange(0, 2).Draw(t, "ptrheavy") == 0
 	overlay := (*space)(nil)
 	disc := 0
 	// fields outside the union are placed first: union members may then share storage with each other, but with
@@ -236,6 +246,10 @@ func (g *gen) fields(si int, sp *space, depth int) {
 			disc++
 		}
 		choice := rapid.IntRange(0, 9).Draw(t, "kind")
+		heavy := ptrHeavy && isMember[k] && rapid.IntRange(0, 3).Draw(t, "heavy") != 0
+		if heavy {
+			choice = 7
+		}
 		switch {
 		case choice <= 5:
 			f.Kind = rapid.SampledFrom(dataKinds).Draw(t, "dkind")
@@ -263,6 +277,17 @@ func (g *gen) fields(si int, sp *space, depth int) {
 			f.Off = off
 		case choice <= 8:
 			f.Kind = rapid.SampledFrom(ptrKinds).Draw(t, "pkind")
+			if heavy {
+				switch rapid.IntRange(0, 3).Draw(t, "heavykind") {
+				case 0, 1:
+					f.Kind = "struct"
+				case 2:
+					f.Kind = "interface"
+				}
+			}
+			if f.Kind == "interface" && len(g.m.Ifaces) == 0 {
+				f.Kind = "anyptr"
+			}
 			p, ok := target.allocPtr(t)
 			if !ok {
 				continue
@@ -279,6 +304,11 @@ func (g *gen) fields(si int, sp *space, depth int) {
 			case "struct":
 				f.Ref = g.topLevel(rapid.IntRange(0, 1<<20).Draw(t, "sref"))
 				f.HasDef = rapid.IntRange(0, 3).Draw(t, "sdef") == 0
+				if heavy {
+					f.HasDef = rapid.Bool().Draw(t, "heavydef")
+				}
+			case "interface":
+				f.Ref = rapid.IntRange(0, len(g.m.Ifaces)-1).Draw(t, "iref")
 			case "list":
 				f.Elem = rapid.SampledFrom(elemKinds).Draw(t, "elem")
 				switch f.Elem {
@@ -356,6 +386,9 @@ func GenModel(t *rapid.T) Model {
 			e.Values = append(e.Values, fmt.Sprintf("v%d", k))
 		}
 		m.Enums = append(m.Enums, e)
+	}
+	for i, n := 0, (rapid.IntRange(0, 3).Draw(t, "nifaces")+1)/2; i < n; i++ {
+		m.Ifaces = append(m.Ifaces, Iface{Name: fmt.Sprintf("I%d", i), ID: g.id()})
 	}
 	nstructs := rapid.IntRange(3, 10).Draw(t, "nstructs")
 	// declare the top-level structs first so that fields can refer to any of them
